@@ -422,6 +422,43 @@ theorem add_photons_conserves (cfg : Cfg) (hs : 0 < cfg.size) (progs : List (Lis
   rw [sumT_eq_zero (·.lost) _ hl] at h
   omega
 
+/-- **owner_writes_only**: while thread `t1` holds slot `i` — from the successful flag CAS inside
+`get_free_buffer` / `get_free_element`, through the time the index is in the caller's hands, to the
+flag-clearing CAS of `free_buffer(i)` (which wipes the buffer BEFORE it releases the slot) — no
+transition of any other thread writes the content of buffer `i`. -/
+theorem owner_writes_only (cfg : Cfg) (hs : 0 < cfg.size) (progs : List (List Cmd)) (sched : List Nat)
+    (i t1 t2 : Nat) (a b : Thread)
+    (h1 : (run cfg (init progs) sched).threads[t1]? = some a)
+    (h2 : (run cfg (init progs) sched).threads[t2]? = some b) (hne : t1 ≠ t2)
+    (ha : 1 ≤ holdS i a) :
+    (step cfg (run cfg (init progs) sched) t2).mem.count i = (run cfg (init progs) sched).mem.count i := by
+  have hb := slot_unique cfg progs sched i t1 t2 a b h1 h2 hne ha
+  have hwf := (poolInv_run cfg hs progs sched).2.1 b (List.mem_of_getElem? h2)
+  rw [step_some cfg _ t2 b h2]
+  exact exec_count_frame cfg _ b i hwf hb
+
+/-- **handed_out_buffer_is_empty**: for clients of `MemorySpace`, under every interleaving: the
+slot a `get_free_buffer` is about to return holds an empty buffer — at every program counter
+between the successful flag CAS and the return, and still when the index is handed to the caller
+(nobody else can have written it: `owner_writes_only`). -/
+theorem handed_out_buffer_is_empty (cfg : Cfg) (hs : 0 < cfg.size) (progs : List (List Cmd))
+    (hms : ∀ p ∈ progs, ∀ c ∈ p, CmdMS cfg.cap c) (sched : List Nat)
+    (tid i : Nat) (th : Thread) (hth : (run cfg (init progs) sched).threads[tid]? = some th) :
+    (pcFresh th.pc = some i → (run cfg (init progs) sched).mem.count i = 0) ∧
+    (th.pc = .getTotal i none →
+      ∃ th', (step cfg (run cfg (init progs) sched) tid).threads[tid]? = some th' ∧
+        th'.pc = .idle ∧ th'.res = .slot i :: th.res ∧ th'.owned = i :: th.owned ∧
+        (step cfg (run cfg (init progs) sched) tid).mem.count i = 0) := by
+  have hinv := (msInv_run cfg hs progs hms sched).1 tid th hth
+  refine ⟨fun h => hinv.2.2.1 i h, fun hpc => ?_⟩
+  have h0 : (run cfg (init progs) sched).mem.count i = 0 := hinv.2.2.1 i (by simp [hpc, pcFresh])
+  have e : exec cfg (run cfg (init progs) sched).mem th
+      = ({ (run cfg (init progs) sched).mem with totalTaken := (run cfg (init progs) sched).mem.totalTaken + 1 },
+         ret { th with owned := i :: th.owned } (.slot i)) := by
+    unfold exec; rw [hpc]; rfl
+  have h := solo_exec hth e
+  exact ⟨_, h.1, rfl, rfl, rfl, by rw [h.2]; exact h0⟩
+
 /-- one call, sequentially: the fill step moves `min n (cap - size)` packets into the target; if
 that fills it exactly, the rest continues (through `get_free_buffer`) to the new buffer, otherwise
 everything fitted. -/
